@@ -67,6 +67,8 @@ def gen_requests(rng, tier):
 
 
 def run(res, replay=None):
+    # structural tie of the argument guards at the entry points (their conditions, exception kinds and ORDER): translate the CURRENT source and re-check proofs/GenGuardsEquiv.v
+    import translate_step; (res.proof is not None) and translate_step.run(res.proof, pid=res.pid, tie='guards')
     # structural tie of the configuration classes (locus.py, lineage.py, StateSpace.alpha): translate the CURRENT source and re-check proofs/GenConfigsEquiv.v
     import translate_step; (res.proof is not None) and translate_step.run(res.proof, pid=res.pid, tie='configs')
     rng = random.Random(res.seed)
